@@ -33,6 +33,7 @@ fn table(id: &str) -> Option<(RunFn, CheckFn)> {
         "C11" => Some((props::c11::run, props::c11::check_case)),
         "C12" => Some((props::c12::run, props::c12::check_case)),
         "C15" => Some((props::c15::run, props::c15::check_case)),
+        "C19" => Some((props::c19::run, props::c19::check_case)),
         "C17" => Some((props::c17::run, props::c17::check_case)),
         "C18" => Some((props::c18::run, props::c18::check_case)),
         _ => None,
